@@ -1,6 +1,8 @@
 package props
 
 import (
+	"strings"
+	"encoding/hex"
 	"bytes"
 	"fmt"
 	"reflect"
@@ -44,6 +46,9 @@ type c13Action struct {
 	TargetGNB  []byte `json:"target_gnb,omitempty"`
 	TargetCell []byte `json:"target_cell,omitempty"`
 	Cap        int64  `json:"cap,omitempty"`
+	// TMSI: the 5G-S-TMSI argument of the INITIAL UE MESSAGE builders: 12 hexadecimal digits, AMF set id / pointer (4) and
+	// 5G-TMSI (8); "" = none (what the emulator passes)
+	TMSI string `json:"five_g_s_tmsi,omitempty"`
 }
 type c13Case struct {
 	Actions []c13Action `json:"actions"`
@@ -103,6 +108,11 @@ var c13Specs = map[string]c13Spec{
 		mandatory: []ieReq{{85, rej}, {38, rej}, {121, rej}, {90, ign}}, allowed: []ieReq{{26, rej}, {3, ign}, {112, ign}, {0, rej}},
 		call: func(a c13Action) (*ngapType.NGAPPDU, []byte, error) {
 			return fromBytes(tglib.GetInitialUEMessage(a.Ran, a.Nas, ""))
+		}},
+	"GetInitialUEMessage(5G-S-TMSI)": {class: 1, code: 15, ran: true, nas: true, msgCrit: ign,
+		mandatory: []ieReq{{85, rej}, {38, rej}, {121, rej}, {90, ign}, {26, rej}}, allowed: []ieReq{{3, ign}, {112, ign}, {0, rej}},
+		call: func(a c13Action) (*ngapType.NGAPPDU, []byte, error) {
+			return fromBytes(tglib.GetInitialUEMessage(a.Ran, a.Nas, a.TMSI))
 		}},
 	"GetUplinkNASTransport": {class: 1, code: 46, amf: true, ran: true, nas: true, msgCrit: ign,
 		mandatory: []ieReq{{10, rej}, {85, rej}, {38, rej}, {121, ign}},
@@ -171,6 +181,9 @@ var c13Specs = map[string]c13Spec{
 	}},
 	"BuildInitialUEMessage": {class: 1, code: 15, ran: true, nas: true, msgCrit: -1, call: func(a c13Action) (*ngapType.NGAPPDU, []byte, error) {
 		return fromPDU(ngapTestpacket.BuildInitialUEMessage(a.Ran, a.Nas, ""))
+	}},
+	"BuildInitialUEMessage(5G-S-TMSI)": {class: 1, code: 15, ran: true, nas: true, msgCrit: -1, call: func(a c13Action) (*ngapType.NGAPPDU, []byte, error) {
+		return fromPDU(ngapTestpacket.BuildInitialUEMessage(a.Ran, a.Nas, a.TMSI))
 	}},
 	"BuildErrorIndication": {class: 1, code: 9, msgCrit: -1, call: func(a c13Action) (*ngapType.NGAPPDU, []byte, error) {
 		return fromPDU(ngapTestpacket.BuildErrorIndication())
@@ -416,6 +429,9 @@ func genC13Action(t *rapid.T, i int, forceSetup bool) c13Action {
 	a.TargetCell = rapid.SliceOfN(rapid.Byte(), 5, 5).Draw(t, l+"targetcell")
 	a.TargetCell[4] &= 0xf0
 	a.Cap = int64(rapid.IntRange(0, 255).Draw(t, l+"cap"))
+	tm := rapid.OneOf(rapid.SliceOfN(rapid.Byte(), 6, 6), rapid.Just([]byte{0xfe, 0x00, 0x00, 0x00, 0x00, 0x01}), rapid.Just([]byte{0xfe, 0x00, 0x80, 0x00, 0x00, 0x00}),
+		rapid.Just([]byte{0xff, 0xc0, 0xff, 0xff, 0xff, 0xff}), rapid.Just([]byte{0, 0, 0, 0, 0, 0})).Draw(t, l+"tmsi")
+	a.TMSI = hex.EncodeToString(tm)
 	return a
 }
 
@@ -686,6 +702,22 @@ func c13Check(a c13Action, s c13Spec, announced []byte) (key string, err error) 
 			if x != a.Ran {
 				return "ran-id:" + a.Builder, fmt.Errorf("%s: RAN-UE-NGAP-ID on the wire %d, argument %d", a.Builder, x, a.Ran)
 			}
+		}
+	}
+	if strings.HasSuffix(a.Builder, "(5G-S-TMSI)") {
+		want, _ := hex.DecodeString(a.TMSI)
+		var got []byte
+		found := 0
+		if d.InitiatingMessage != nil && d.InitiatingMessage.Value.InitialUEMessage != nil {
+			for _, ie := range d.InitiatingMessage.Value.InitialUEMessage.ProtocolIEs.List {
+				if ie.Value.FiveGSTMSI != nil {
+					found++
+					got = ie.Value.FiveGSTMSI.FiveGTMSI.Value
+				}
+			}
+		}
+		if len(want) != 6 || found != 1 || !bytes.Equal(got, want[2:]) {
+			return "5g-s-tmsi:" + a.Builder, fmt.Errorf("%s: 5G-TMSI on the wire %x (%d 5G-S-TMSI IEs), the argument %q names %x", a.Builder, got, found, a.TMSI, want[2:])
 		}
 	}
 	if s.nas {
